@@ -65,6 +65,7 @@ package checker
 //@   maypanic
 //@   ensures panics <==> ((hasRule(node, constraint.MinItemsConstraintType) && len(unbox(node, *schema.ArrayNode).children) < unbox(consOf(node).data[constraint.MinItemsConstraintType], *constraint.MinItems).value)
 //@                     || (hasRule(node, constraint.MaxItemsConstraintType) && len(unbox(node, *schema.ArrayNode).children) > unbox(consOf(node).data[constraint.MaxItemsConstraintType], *constraint.MaxItems).value))
+//@   ensures panics ==> errWF(pv)
 
 // ASSUMED: the list of checkers built for a node (type references expanded
 // through getType, which selects between two closures under a recover and is
@@ -76,6 +77,7 @@ package checker
 //@   maypanic
 //@   ensures normal ==> (forall i {result[i]} :: 0 <= i && i < len(result) ==> isChecker(result[i]))
 //@   defines result == checkersOf(c.rootSchema, node)
+//@   defines panics ==> (typeis(pv, errors.DocumentError) || errWF(pv))
 
 // C04: a literal position fails exactly when every candidate checker rejects
 // the example value (one candidate unless the node names several types); the
@@ -84,6 +86,7 @@ package checker
 //@   props C04
 //@   requires isNode(node) && lexWF(basisLex(node))
 //@   maypanic
+//@   ensures panics ==> (typeis(pv, errors.DocumentError) || errWF(pv))
 //@   ensures normal ==> (exists i {checkersOf(c.rootSchema, node)[i]} :: 0 <= i && i < len(checkersOf(c.rootSchema, node)) && chkOK(checkersOf(c.rootSchema, node)[i], basisLex(node)))
 //@   loop 0 invariant 0 <= errorsCount && errorsCount <= rangeindex + 1
 //@   loop 0 invariant (errorsCount == rangeindex + 1) <==> (forall j {checkerList[j]} :: 0 <= j && j <= rangeindex ==> !chkOK(checkerList[j], basisLex(node)))
@@ -202,3 +205,36 @@ package checker
 //@   ensures panics <==> (!typeis(node, *schema.MixedNode) && !typeis(node, *schema.MixedValueNode)
 //@           && (exists i :: 0 <= i && i < len(consOf(node).order) && !compat(ctypeOf(consOf(node).data[consOf(node).order[i]]), jtypeOf(node))))
 //@   ensures panics ==> errWF(pv)
+
+// ---- C04: "all children of branch nodes ... are visited" ----
+// nodeChecked(x) holds exactly when checkNode was called on x and returned
+// normally (definitional clause); demanding it for every child forces the walk
+// to visit every child of every branch node.
+
+// ASSUMED frames of the read-only helper checks (they walk the type tables)
+//@ func (checkSchema).checkArrayItems(node)
+//@   props C04
+//@   trusted "walks type references of an empty example array: read-only (assumed), may fail with a library error"
+//@   maypanic
+//@   defines panics ==> (typeis(pv, errors.DocumentError) || errWF(pv))
+//@ func (*checkSchema).ensureShortcutKeysAreValid(node)
+//@   props C04
+//@   trusted "key shortcut kinds: read-only walk over the key table and the type tables (assumed)"
+//@   nopanic
+//@   defines result != nil ==> typeis(result, errors.DocumentError)
+//@ func (*checkSchema).checkAdditionalPropertiesConstraint(node, ss)
+//@   props C04
+//@   trusted "additionalProperties type lookup: read-only (assumed), may fail with a library error"
+//@   maypanic
+//@   defines panics ==> (typeis(pv, errors.DocumentError) || errWF(pv))
+
+//@ func (checkSchema).checkNode(node, ss)
+//@   props C04 C08
+//@   assumes isNode(node) && consReady(node) && consKinds(node) && lexWF(basisLex(node)) && (isBranch(node) ==> ival(node) != 0)
+//@   assumes forall i :: 0 <= i && i < len(consOf(node).order) ==> ctypeOf(consOf(node).data[consOf(node).order[i]]) >= 0
+//@   maypanic
+//@   modifies c.foundTypeNames[*], c.allowedJsonTypes[*]
+//@   defines normal ==> nodeChecked(node)
+//@   ensures normal && isBranch(node) ==> (forall i :: 0 <= i && i < len(childrenOf(node)) ==> nodeChecked(childrenOf(node)[i]))
+//@   ensures panics ==> typeis(pv, errors.DocumentError)
+//@   loop 0 invariant forall j :: 0 <= j && j <= rangeindex ==> nodeChecked(childrenOf(node)[j])
